@@ -46,8 +46,31 @@ def build_native(repo):
     return os.path.join(BUILD, "native_target", "release")
 
 
+def build_daemon_native(repo):
+    """native programs that need cfdp-daemon built with the verification hooks (--cfg cfdp_verif)"""
+    tag = hashlib.sha1(os.path.abspath(repo).encode()).hexdigest()[:8]
+    d = os.path.join(BUILD, "dnative_" + tag)
+    src = os.path.join(VERIF, "replay", "daemon_native")
+    os.makedirs(os.path.join(d, "src", "bin"), exist_ok=True)
+    open(os.path.join(d, "Cargo.toml"), "w").write(open(os.path.join(src, "Cargo.toml.in")).read().replace("@REPO@", os.path.abspath(repo)))
+    os.makedirs(os.path.join(d, ".cargo"), exist_ok=True)
+    open(os.path.join(d, ".cargo", "config.toml"), "w").write("[net]\noffline = true\n")
+    import shutil
+    shutil.copy(os.path.join(repo, "Cargo.lock"), os.path.join(d, "Cargo.lock"))
+    for f in os.listdir(os.path.join(src, "src", "bin")):
+        shutil.copy(os.path.join(src, "src", "bin", f), os.path.join(d, "src", "bin", f))
+    env = dict(os.environ, CARGO_NET_OFFLINE="true", CARGO_TARGET_DIR=os.path.join(BUILD, "dnative_target"), RUSTFLAGS="--cfg cfdp_verif")
+    r = subprocess.run(["cargo", "build", "--release", "--offline", "--bins"], cwd=d, capture_output=True, text=True, env=env)
+    if r.returncode:
+        raise RuntimeError("cargo build of daemon-native programs failed: " + r.stderr[-1500:])
+    return os.path.join(BUILD, "dnative_target", "release")
+
+
+DAEMON_PROGS = {"naksplit_bounded"}
+
+
 def run_native(prog, args, repo, timeout=900):
-    bindir = build_native(repo)
+    bindir = build_daemon_native(repo) if prog in DAEMON_PROGS else build_native(repo)
     r = subprocess.run([os.path.join(bindir, prog)] + args, capture_output=True, text=True, timeout=timeout)
     line = (r.stdout.strip().splitlines() or [""])[-1]
     try:
@@ -59,6 +82,7 @@ def run_native(prog, args, repo, timeout=900):
 
 def setup():
     build_native("/repo")
+    build_daemon_native("/repo")
     for n in PROGRAMS:
         _build(n, "/repo")
     print("search programs built")
@@ -96,7 +120,9 @@ def replay(ds, repo):
             rc = 1
             continue
         if d.get("native"):
-            if d["program"] == "checksum_bounded":
+            if d["program"] == "naksplit_bounded":
+                nrc, out = run_native(d["program"], ["replay", d.get("naks", "")], repo)
+            elif d["program"] == "checksum_bounded":
                 nrc, out = run_native(d["program"], ["replay", d.get("content", ""), d.get("reads", "")], repo)
             else:
                 nrc, out = run_native(d["program"], ["replay"] + d.get("replay_args", []), repo)
